@@ -12,6 +12,7 @@
 -/
 import DdnnfVerif.Model.Enum
 import DdnnfVerif.Model.Atomic
+import DdnnfVerif.Model.ClauseCache
 namespace Ddnnf.Msg
 
 inductive Reply where
@@ -166,7 +167,8 @@ structure Params where
   limit : Option Nat := none
   fitness : Nat := 0            -- number of fitness values
   path : String := ""
-  hasClauses : Bool := false
+  adds : List (List Int) := []   -- clauses after `add` (each a set: ascending, no duplicates)
+  rmvs : List (List Int) := []   -- clauses after `rmv`
 
 def isNatTok (w : String) (maxv : Nat) : Bool :=
   let cs := match w.toList with | '+' :: r => r | cs => cs
@@ -175,8 +177,20 @@ def isNatTok (w : String) (maxv : Nat) : Bool :=
 def parseNatTok (w : String) : Nat :=
   digitsToNat (match w.toList with | '+' :: r => r | cs => cs)
 
-/-- `split_clauses` + `get_numbers` per clause (only reachable for `add` / `rmv`): number of tokens consumed -/
-def parseClauses (total : Nat) (args : List String) : Option Nat ⊕ Reply :=
+/-- a clause as a `BTreeSet<i32>`: ascending, duplicates removed -/
+def clauseOf (nums : List Int) : List Int :=
+  let rec dedup : List Int → List Int
+    | a :: b :: r => if a == b then dedup (b :: r) else a :: dedup (b :: r)
+    | l => l
+  dedup (nums.foldr (fun x acc =>
+    let rec ins : Int → List Int → List Int
+      | x, [] => [x]
+      | x, y :: ys => if x ≤ y then x :: y :: ys else y :: ins x ys
+    ins x acc) [])
+
+/-- `split_clauses` + `get_numbers` per clause (only reachable for `add` / `rmv`): number of tokens
+consumed and the clauses -/
+def parseClauses (total : Nat) (args : List String) : Option (Nat × List (List Int)) ⊕ Reply :=
   -- tokens up to the first one that does not parse as f64
   let numeric := args.takeWhile isF64Tok
   let rec split : List String → List String → List (List String) → Option (List (List String))
@@ -189,15 +203,15 @@ def parseClauses (total : Nat) (args : List String) : Option Nat ⊕ Reply :=
   | some [] => .inr (E 4 "E4 error: key word is missing arguments")
   | some clauses =>
       -- after every clause an immediately following "0" is skipped
-      let rec each : List (List String) → Nat → Option Nat ⊕ Reply
-        | [], k => .inl (some k)
-        | c :: cs, k =>
+      let rec each : List (List String) → Nat → List (List Int) → Option (Nat × List (List Int)) ⊕ Reply
+        | [], k, acc => .inl (some (k, acc))
+        | c :: cs, k, acc =>
             match getNumbers total c with
             | .fail r => .inr r
-            | .ok _ len =>
+            | .ok nums len =>
                 let k' := k + len
-                each cs (if args.getD k' "" == "0" then k' + 1 else k')
-      each clauses 0
+                each cs (if args.getD k' "" == "0" then k' + 1 else k') (acc ++ [clauseOf nums])
+      each clauses 0 []
 
 def paramLoop (total : Nat) : Nat → List String → Params → Params ⊕ Reply
   | 0, _, p => .inl p
@@ -231,8 +245,9 @@ def paramLoop (total : Nat) : Nat → List String → Params → Params ⊕ Repl
         match parseClauses total rest with
         | .inr r => .inr r
         | .inl none => .inl p
-        | .inl (some len) =>
-            paramLoop total fuel (rest.drop len) { p with hasClauses := true }
+        | .inl (some (len, cls)) =>
+            paramLoop total fuel (rest.drop len)
+              (if w == "add" then { p with adds := p.adds ++ cls } else { p with rmvs := p.rmvs ++ cls })
       else .inr (E 4 s!"E4 error: the option \"{w}\" is not valid in this context")
 
 /-! ### dispatch -/
@@ -260,39 +275,60 @@ def opWithVars (op : List Int → Bool → Option String) (params values : List 
 def tokens (msg : String) : List String :=
   (msg.split Char.isWhitespace).toList.map (·.toString) |>.filter (· ≠ "")
 
-def handle (nodes : List NType) (n : Nat) (cur : Cursor) (msg : String) : Cursor × Reply :=
+/-- the state of the handler: the enumeration cursor and, for a model loaded from a CNF, the clause cache -/
+structure HState where
+  cur : Cursor := []
+  cache : Option CC.Cache := none
+
+/-- `Ddnnf::handle_stream_msg`.  `cache = none`: the model was loaded from an nnf file.
+After an accepted `clause-update` / `undo-update` the node array is the one the compiler produces for
+the new clause set: it is not computed here (the compiler is outside the model); the caller supplies
+the node array of the live model with every message. -/
+def handleC (nodes : List NType) (n : Nat) (st : HState) (msg : String) : HState × Reply :=
+  let cur := st.cur
   let args := tokens msg
   match args with
-  | [] => (cur, E 4 "E4 error: got an empty msg")
-  | cmd :: tail =>
+  | [] => (st, E 4 "E4 error: got an empty msg")
+  | cmd :: _ =>
     match dupWord args [] with
-    | some w => (cur, E 4 s!"E4 error: \"{w}\" occurs at least twice in the stream msg")
+    | some w => (st, E 4 s!"E4 error: \"{w}\" occurs at least twice in the stream msg")
     | none =>
-      -- total-features is only valid together with clause-update; an nnf model has no clause cache
-      match args.findIdx? (fun s => s == "total-features" || s == "t") with
-      | some idx =>
-          let w := args.getD idx ""
-          if cmd != "clause-update" then
-            (cur, E 4 s!"E4 error: {dbg w} can only be used in combination with \"clause-update\"")
-          else
-            -- exactly one value token may follow, and it must be a plain number
-            let vals := (args.drop (idx + 1)).takeWhile (fun w => !hasAlpha w)
-            let single := vals.length == 1 && (vals.headD "").splitOn ".." == [vals.headD ""]
-            match (if single then getNumbers 2147483647 vals else .fail (.err 4 none)) with
-            | .ok [x] _ =>
-                if x > 0 then (cur, E 5 "E5 error: clauses corresponding to the d-DNNF aren't available; the input file must be a CNF")
-                else (cur, E 4 s!"E4 error: {dbg w} must be set to a single positive number")
-            | _ => (cur, E 4 s!"E4 error: {dbg w} must be set to a single positive number")
-      | none =>
-        match paramLoop n (tail.length + 1) tail {} with
-        | .inr r => (cur, r)
+      -- total-features is only valid together with clause-update and needs the clause cache
+      let early : (Nat × List String) ⊕ Reply :=
+        match args.findIdx? (fun s => s == "total-features" || s == "t") with
+        | none => .inl (n, args)
+        | some idx =>
+            let w := args.getD idx ""
+            if cmd != "clause-update" then
+              .inr (E 4 s!"E4 error: {dbg w} can only be used in combination with \"clause-update\"")
+            else
+              -- exactly one value token may follow, and it must be a plain number
+              let vals := (args.drop (idx + 1)).takeWhile (fun w => !hasAlpha w)
+              let single := vals.length == 1 && (vals.headD "").splitOn ".." == [vals.headD ""]
+              match (if single then getNumbers 2147483647 vals else .fail (.err 4 none)) with
+              | .ok [x] _ =>
+                  if x > 0 then
+                    match st.cache with
+                    | none => .inr (E 5 "E5 error: clauses corresponding to the d-DNNF aren't available; the input file must be a CNF")
+                    | some c =>
+                        if CC.conflicts c x.toNat then
+                          .inr (E 5 "E5 error: at least one clause is in conflict with the feature reduction; remove conflicting clauses")
+                        else .inl (x.toNat, args.take idx ++ args.drop (idx + 2))
+                  else .inr (E 4 s!"E4 error: {dbg w} must be set to a single positive number")
+              | _ => .inr (E 4 s!"E4 error: {dbg w} must be set to a single positive number")
+      match early with
+      | .inr r => (st, r)
+      | .inl (total, args) =>
+        let tail := args.drop 1
+        match paramLoop total (tail.length + 1) tail {} with
+        | .inr r => (st, r)
         | .inl p =>
           if cmd == "count" then
-            (cur, .ok (some (opWithVars (fun A _ => some (toString (execQuery nodes n A))) p.params p.values)))
+            (st, .ok (some (opWithVars (fun A _ => some (toString (execQuery nodes n A))) p.params p.values)))
           else if cmd == "sat" then
-            (cur, .ok (some (opWithVars (fun A _ => some (toString (satQuery nodes n A))) p.params p.values)))
+            (st, .ok (some (opWithVars (fun A _ => some (toString (satQuery nodes n A))) p.params p.values)))
           else if cmd == "core" then
-            (cur, .ok (some (opWithVars (fun A vars =>
+            (st, .ok (some (opWithVars (fun A vars =>
               if vars then
                 let c := A.getLast?.getD 0
                 if execQuery nodes n A == execQuery nodes n A.dropLast then some (toString c) else none
@@ -302,33 +338,51 @@ def handle (nodes : List NType) (n : Nat) (cur : Cursor) (msg : String) : Cursor
             let lim := match p.limit with | some l => l | none => if rc > 1000 then 1000 else rc
             let (cur', res) := enumerate nodes n cur p.params lim
             match res with
-            | some cs => (cur', .ok (some (joinSemi (cs.map fun c => fmtIntsS (sortCfgAbs c)))))
-            | none => (cur', E 5 "E5 error: with the assumptions, the ddnnf is not satisfiable. Hence, there exist no valid sample configurations")
+            | some cs => ({ st with cur := cur' }, .ok (some (joinSemi (cs.map fun c => fmtIntsS (sortCfgAbs c)))))
+            | none => ({ st with cur := cur' }, E 5 "E5 error: with the assumptions, the ddnnf is not satisfiable. Hence, there exist no valid sample configurations")
           else if cmd == "random" then
-            if execQuery nodes n p.params > 0 then (cur, .ok none)
-            else (cur, E 5 "E5 error: with the assumptions, the ddnnf is not satisfiable. Hence, there exist no valid sample configurations")
+            if execQuery nodes n p.params > 0 then (st, .ok none)
+            else (st, E 5 "E5 error: with the assumptions, the ddnnf is not satisfiable. Hence, there exist no valid sample configurations")
           else if cmd == "atomic" || cmd == "atomic-cross" then
-            if p.values.any (· < 0) then (cur, E 5 "E5 error: candidates must be positive")
+            if p.values.any (· < 0) then (st, E 5 "E5 error: candidates must be positive")
             else
               let cands := if p.values.isEmpty then (List.range n).map (· + 1) else p.values.map Int.toNat
               -- unsatisfiable assumptions: `get_signed_excludes` gets no samples and uses all-zero sign
               -- vectors, i.e. one sample in which no feature is selected; otherwise the (admissible)
               -- samples do not change the report (C08 `report_independent_of_samples`)
               let samples : List Config := if execQuery nodes n p.params == 0 then [[]] else []
-              (cur, .ok (some (joinSemi ((atomicSets nodes n cands p.params (cmd == "atomic-cross") samples).map fmtIntsS))))
+              (st, .ok (some (joinSemi ((atomicSets nodes n cands p.params (cmd == "atomic-cross") samples).map fmtIntsS))))
           else if cmd == "t-wise" then
-            if p.fitness == 0 || p.fitness == n then (cur, .ok none)
-            else (cur, E 5 s!"E5 error: Only {p.fitness} fitness values were provided but d-DNNF contains {n} variables.")
+            if p.fitness == 0 || p.fitness == n then (st, .ok none)
+            else (st, E 5 s!"E5 error: Only {p.fitness} fitness values were provided but d-DNNF contains {n} variables.")
           else if cmd == "clause-update" then
-            (cur, E 5 "E5 error: clauses corresponding to the d-DNNF aren't available; the input file must be a CNF")
+            match st.cache with
+            | none => (st, E 5 "E5 error: clauses corresponding to the d-DNNF aren't available; the input file must be a CNF")
+            | some c =>
+                -- `update_cached_state(Left(add, rmv), Some(total))`: the `t` checks were done above
+                let (c', v) := CC.update c (some total) p.adds p.rmvs
+                if v == .ok then ({ st with cache := some c', cur := [] }, .ok (some ""))
+                else (st, E 5 "E5 error: could not update cached state")
           else if cmd == "undo-update" then
-            (cur, E 5 "E5 error: could not perform undo; there does not exist any cached state1")
-          else if cmd == "exit" then (cur, .ok (some "exit"))
+            match st.cache with
+            | none => (st, E 5 "E5 error: could not perform undo; there does not exist any cached state1")
+            | some c =>
+                -- the cursor belongs to the model that gets swapped out (only if an old model exists)
+                let (c', _) := CC.undo c
+                ({ st with cache := some c', cur := if c.old.isSome then [] else cur }, .ok (some ""))
+          else if cmd == "exit" then (st, .ok (some "exit"))
           else if cmd == "save-cnf" || cmd == "save-ddnnf" then
-            if p.path == "" then (cur, E 6 "E6 error: no file path was supplied")
-            else if !p.path.startsWith "/" then (cur, E 6 "E6 error: file path is not absolute, but has to be")
-            else if cmd == "save-ddnnf" then (cur, .ok none)       -- result or E6 io error: decided by the file system
-            else (cur, E 5 "E5 error: cannot save as CNF because clauses are not available")
-          else (cur, E 2 s!"E2 error: the operation \"{cmd}\" is not supported")
+            if p.path == "" then (st, E 6 "E6 error: no file path was supplied")
+            else if !p.path.startsWith "/" then (st, E 6 "E6 error: file path is not absolute, but has to be")
+            else if cmd == "save-ddnnf" then (st, .ok none)       -- result or E6 io error: decided by the file system
+            else match st.cache with
+              | none => (st, E 5 "E5 error: cannot save as CNF because clauses are not available")
+              | some _ => (st, .ok none)
+          else (st, E 2 s!"E2 error: the operation \"{cmd}\" is not supported")
+
+/-- the handler of a model loaded from an nnf file (no clause cache) -/
+def handle (nodes : List NType) (n : Nat) (cur : Cursor) (msg : String) : Cursor × Reply :=
+  let r := handleC nodes n { cur := cur, cache := none } msg
+  (r.1.cur, r.2)
 
 end Ddnnf.Msg
